@@ -294,7 +294,7 @@ def zUnion (aggregate : Bytes) : Nat → List (KMap Flt × Int) → Option (KMap
 
 /-! ### ZADD -/
 
-/-- does this token start the score/member list (commands.go:45-59) -/
+/-- does this token start the score/member list (commands.go:45-59; the scan starts after the key) -/
 def zaddIsScore (t : Bytes) : PRes Bool :=
   match adaptType t with
   | .unmod => .unmod "AdaptType outside exact numeric domain"
@@ -336,16 +336,18 @@ structure ZAddOpts where
   ch : Option Bytes := none
   incr : Option Bytes := none
 
-/-- commands.go:107-141 -/
+/-- commands.go:107-141: NX/XX and GT/LT exclude each other (a repeated flag is accepted), NX excludes GT/LT -/
 def zaddOptions (nMembers : Nat) : List Bytes → ZAddOpts → PRes ZAddOpts
   | [], o => .ok o
   | t :: r, o =>
     if !isAscii t then .unmod "non-ASCII option token" else
     if toLower t == b "xx" || toLower t == b "nx" then
-      if eqFold t (b "nx") && o.comp.isSome then .err (b "GT/LT flags not allowed if NX flag is provided")
+      if o.policy.isSome && !eqFold (o.policy.getD []) t then .err (b "XX and NX flags cannot be provided together")
+      else if eqFold t (b "nx") && o.comp.isSome then .err (b "GT/LT flags not allowed if NX flag is provided")
       else zaddOptions nMembers r { o with policy := some t }
     else if toLower t == b "gt" || toLower t == b "lt" then
-      if eqFold (o.policy.getD []) (b "nx") then .err (b "GT/LT flags not allowed if NX flag is provided")
+      if o.comp.isSome && !eqFold (o.comp.getD []) t then .err (b "GT and LT flags cannot be provided together")
+      else if eqFold (o.policy.getD []) (b "nx") then .err (b "GT/LT flags not allowed if NX flag is provided")
       else zaddOptions nMembers r { o with comp := some t }
     else if eqFold t (b "ch") then zaddOptions nMembers r { o with ch := some t }
     else if eqFold t (b "incr") then
@@ -382,7 +384,7 @@ def handleZAdd (_c : Ctx) (cmd : List Bytes) : Prog Res :=
   match cmd with
   | _ :: key :: _ =>
     .call (.keysExist [key]) fun (ex : List Bool) =>
-    match zaddStart cmd 0 with
+    match zaddStart (cmd.drop 2) 2 with
     | .err m => .ret (.err m)
     | .unmod w => .unmod w
     | .ok msi =>
@@ -422,12 +424,15 @@ def withZSet {α : Type} (cmd : List Bytes) (arityOk : Bool) (parse : PRes α) (
 def handleZCard (_c : Ctx) (cmd : List Bytes) : Prog Res :=
   withZSet cmd (cmd.length == 2) (.ok ()) (.ok (intReply 0)) notZSet fun _ ms _ => .ret (.ok (intReply ms.length))
 
-/-- a ZCOUNT bound: AdaptType, the only accepted word being `word` (+inf for min, -inf for max) -/
-def zcountBound (t word errMsg : Bytes) (inf : Flt) : PRes Flt :=
+/-- a ZCOUNT bound (either end): AdaptType; a word is accepted when strconv.ParseFloat reads it as an infinity
+    (`-INF`, `+Infinity`, …: big.ParseFloat knows only `inf` / `Inf`), anything else — a finite value spelled in a
+    way only ParseFloat reads, NaN, a range error, not a number — is refused -/
+def zcountBound (t errMsg : Bytes) : PRes Flt :=
   match adaptType t with
   | .unmod => .unmod "AdaptType outside exact numeric domain"
-  | .str s => if !isAscii s then .unmod "non-ASCII token (ToLower)" else
-              if toLower s == word then .ok inf else .err errMsg
+  | .str s => match parseFloat64 s with
+    | some (some f) => if f.isInf then .ok f else .err errMsg
+    | _ => .err errMsg
   | .flt f => .ok f
   | .int i => match Flt.ofInt i with
     | some f => .ok f
@@ -436,8 +441,8 @@ def zcountBound (t word errMsg : Bytes) (inf : Flt) : PRes Flt :=
 /-- :192 handleZCOUNT -/
 def handleZCount (_c : Ctx) (cmd : List Bytes) : Prog Res :=
   withZSet cmd (cmd.length == 4)
-    (match zcountBound (cmd.getD 2 []) (b "+inf") (b "min constraint must be a double") .pinf with
-     | .ok lo => (match zcountBound (cmd.getD 3 []) (b "-inf") (b "max constraint must be a double") .ninf with
+    (match zcountBound (cmd.getD 2 []) (b "min constraint must be a double") with
+     | .ok lo => (match zcountBound (cmd.getD 3 []) (b "max constraint must be a double") with
         | .ok hi => PRes.ok (lo, hi)
         | .err m => .err m
         | .unmod w => .unmod w)
@@ -499,12 +504,13 @@ def handleZRandMember (_c : Ctx) (cmd : List Bytes) : Prog Res :=
       else if a.1.natAbs ≥ ms.length then .ret (zArrAnyOrder a.2 ms)
       else .ret (.okPick (arrHdr a.1.natAbs) a.1.natAbs (decide (a.1 > 0)) (ms.map (zElem a.2)))
 
-/-- :769 handleZRANK (ZRANK and ZREVRANK; the handler itself applies zrankKeyFunc to both) -/
+/-- :769 handleZRANK (ZRANK and ZREVRANK; the handler itself applies zrankKeyFunc to both); the option is read as
+    WITHSCORE (documented) or WITHSCORES, any other fourth token is ignored -/
 def handleZRank (c : Ctx) (cmd : List Bytes) : Prog Res :=
   let rev := eqFold (cmd.headD []) (b "zrevrank")
   withZSet cmd (cmd.length ≥ 3 && cmd.length ≤ 4)
     (if cmd.length == 4 then
-       (if !isAscii (cmd.getD 3 []) then .unmod "non-ASCII token (EqualFold)" else PRes.ok (eqFold (cmd.getD 3 []) (b "withscores")))
+       (if !isAscii (cmd.getD 3 []) then .unmod "non-ASCII token (EqualFold)" else PRes.ok (eqFold (cmd.getD 3 []) (b "withscore") || eqFold (cmd.getD 3 []) (b "withscores")))
      else .ok false)
     (.ok nilBulk) notZSet fun _ ms (withscores : Bool) =>
       let g := zGuess c rev (.rank (cmd.getD 2 [])) ms
@@ -549,8 +555,10 @@ def handleZRemRangeByRank (c : Ctx) (cmd : List Bytes) : Prog Res :=
       let start := if idx.1 < 0 then idx.1 + card else idx.1
       let stop := if idx.2 < 0 then idx.2 + card else idx.2
       if start < 0 || start > card - 1 || stop < 0 || stop > card - 1 then .ret (.err (b "indices out of bounds")) else
-      let lo := (min start stop).toNat
-      let hi := (max start stop).toNat
+      -- a start after the stop is an empty range: the loop body never runs, nothing is removed (whatever the sort did)
+      if start > stop then .ret (.ok (intReply 0)) else
+      let lo := start.toNat
+      let hi := stop.toNat
       let g := zGuess c false (.window lo hi) ms
       if ms.length > 12 then .unmod "slices.SortFunc beyond insertion sort" else
       if g.2 > zAltCap then .unmod "too many tie arrangements" else
@@ -779,15 +787,16 @@ def unionParams : List (Bytes × Bool × Val × Int) → ZParams
       | .ok ps => .ok ((ms, w) :: ps)
       | x => x
 
-/-- key-function verdict of zinterKeyFunc / zunionKeyFunc / zunionstoreKeyFunc: a modifier as the first argument -/
+/-- key-function verdict of zinterKeyFunc / zunionKeyFunc: a modifier as the first argument -/
 def firstArgIsModifier (cmd : List Bytes) : Bool :=
   ((cmd.drop 1).findIdx? isModifierTok) == some 0
 
-/-- zinterstoreKeyFunc: with a modifier present there must be at least two source keys -/
-def zinterstoreKeyFuncErr (cmd : List Bytes) : Bool :=
+/-- zinterstoreKeyFunc / zunionstoreKeyFunc: with a modifier present there must be a destination and at least one
+    source key before it -/
+def zstoreKeyFuncErr (cmd : List Bytes) : Bool :=
   match (cmd.drop 1).findIdx? isModifierTok with
   | none => false
-  | some i => decide (i < 3)
+  | some i => decide (i < 2)
 
 /-- the tail shared by the four commands once keys, weights and values are known -/
 def zCombineTail (inter store withscores : Bool) (dest aggregate : Bytes) (rows : List (Bytes × Bool × Val × Int)) : Prog Res :=
@@ -805,7 +814,7 @@ def zCombineTail (inter store withscores : Bool) (dest aggregate : Bytes) (rows 
 def handleZCombine (inter store : Bool) (_c : Ctx) (cmd : List Bytes) : Prog Res :=
   if (store && cmd.length < 3) || (!store && cmd.length < 2) then .ret (.err wrongArgs) else
   if !(cmd.all isAscii) then .unmod "non-ASCII token (EqualFold)" else
-  if (if inter && store then zinterstoreKeyFuncErr cmd else firstArgIsModifier cmd) then .ret (.err wrongArgs) else
+  if (if store then zstoreKeyFuncErr cmd else firstArgIsModifier cmd) then .ret (.err wrongArgs) else
   let dest := cmd.getD 1 []
   -- ZINTERSTORE asks KeysExist about the key function's ReadKeys *before* removing the destination
   let readKeys := match (cmd.drop 1).findIdx? isModifierTok with
